@@ -3,6 +3,7 @@ from __future__ import annotations
 
 import json
 import os
+import re
 import time
 from dataclasses import dataclass, field
 from typing import Dict, List, Optional
@@ -11,6 +12,43 @@ VERIF = os.path.dirname(os.path.dirname(os.path.abspath(__file__)))
 KNOWN_FINDINGS = os.path.join(VERIF, "known_findings.json")
 
 DISCHARGED, VIOLATED, UNDECIDED = "discharged", "violated", "undecided"
+
+
+# Local variable names of every analysed function (filled by model.Program): finding keys are invariant under a
+# consistent renaming of local variables - the names are replaced by placeholders numbered by first appearance.
+LOCAL_NAMES: Dict[str, frozenset] = {}
+_IDENT = re.compile(r"(?<![\w.])([A-Za-z_]\w*)")
+
+
+def _is_code(text: str) -> bool:
+    if text.endswith("..."):
+        return True          # a truncated piece of source text
+    try:
+        compile(text, "<construct>", "exec", flags=0x400, dont_inherit=True)   # PyCF_ONLY_AST
+        return True
+    except (SyntaxError, ValueError):
+        return False
+
+
+def alpha(func: str, text: str) -> str:
+    """Construct texts are `<code>`, `<prose>` or `<code> # <prose>`: local variable names are replaced in the code
+    part only (prose may happen to contain a word that is also the name of a local)."""
+    names = LOCAL_NAMES.get(func)
+    if not names:
+        return text
+    code, sep, prose = text.partition(" # ")
+    if not _is_code(code):
+        return text
+    seen: Dict[str, str] = {}
+
+    def sub(m):
+        name = m.group(1)
+        if name not in names:
+            return name
+        if name not in seen:
+            seen[name] = f"${len(seen) + 1}"
+        return seen[name]
+    return _IDENT.sub(sub, code) + sep + prose
 
 
 @dataclass
@@ -25,7 +63,7 @@ class Obligation:
 
     @property
     def key(self) -> str:
-        return f"{self.rule}|{self.func}|{self.construct}"
+        return f"{self.rule}|{self.func}|{alpha(self.func, self.construct)}"
 
     def as_sample(self) -> dict:
         return {"rule": self.rule, "where": self.where, "function": self.func, "construct": self.construct,
@@ -93,6 +131,11 @@ def finish(result: Result, tier: str, seed: int, t0: float, evidence_dir: Option
     evidence_dir = evidence_dir or os.path.join(VERIF, "evidence")
     out_dir = out_dir or os.path.join(VERIF, "out")
     known = [k for k in load_known() if k.get("property") == prop and k.get("status") == "known"]
+    def _norm_known(key: str) -> str:
+        parts = key.split("|", 2)
+        return key if len(parts) < 3 else f"{parts[0]}|{parts[1]}|{alpha(parts[1], parts[2])}"
+    for k in known:
+        k["key"] = _norm_known(k["key"])
     known_keys = {k["key"]: k for k in known}
 
     # vacuity floors
